@@ -13,6 +13,12 @@ Open Scope Q_scope.
 Definition eps : Q := 1 # 100000000000.     (* constants.FLOAT_ACCURACY, checked against gen/GenConst *)
 Definition Qltb (a b : Q) : bool := if Qlt_le_dec a b then true else false.
 
+(* operations of the arc interpreters (also used by the correspondence check) *)
+Inductive aop :=
+| APush (v : vqip) (force : bool) (time : nat) | APull (v : Q) (time : nat)
+| APushCheck (ov : option vqip) | APullCheck (ov : option Q) | AEnd | ADs | ASetT (T : Q).
+Inductive akind := KArc | KPullArc | KPushArc.
+
 Section Ports.
 Variable S : Type.
 Record port := mkPort {
@@ -52,6 +58,28 @@ Definition a_send_pull (a : arc) (s : S) (v : Q) : arc * S * vqip :=
   (a_record a got, s', got).
 
 Definition a_end (a : arc) : arc := mkA (a_cap a) 0 0 vzero vzero.
+
+(* one operation on a plain / pull-only / push-only arc: (arc', far ends', reply) *)
+Definition arc_do (k : akind) (a : arc) (s : S) (o : aop) : arc * S * vqip :=
+  match o with
+  | APush v f _ =>
+      match k with
+      | KPullArc => (a, s, v)
+      | _ => a_send_push a s v f
+      end
+  | APull v _ =>
+      match k with
+      | KPushArc => (a, s, vzero)
+      | _ => a_send_pull a s v
+      end
+  | APushCheck ov =>
+      match k with KPullArc => (a, s, vzero) | _ => (a, s, a_excess_push a s ov) end
+  | APullCheck ov =>
+      match k with KPushArc => (a, s, vzero) | _ => (a, s, a_excess_pull a s ov) end
+  | AEnd => (a_end a, s, vzero)
+  | ADs => (a, s, vzero)
+  | ASetT _ => (a, s, vzero)
+  end.
 
 (* ---------------- QueueArc / DecayArc ---------------- *)
 Record qreq := mkR { r_time : nat; r_v : vqip; r_avg : Q; r_push : bool }.
@@ -147,6 +175,17 @@ Definition q_end (q : qarc) : qarc :=
                               (q_queue q) ([], vzero) in
   mkQ (a_end (q_a q)) (q_n q) rs vzero (q_qs q) (q_dec q)
       (match q_dec q with [] => q_decayed q | _ => tot end) (q_T q).
+
+Definition qarc_do (q : qarc) (s : S) (o : aop) : qarc * S * vqip :=
+  match o with
+  | APush v f time => q_send_push q s v f time
+  | APull v time => q_send_pull q s v time
+  | APushCheck ov => (q, s, a_excess_push (q_a q) s ov)
+  | APullCheck ov => (q, s, a_excess_pull (q_a q) s ov)
+  | AEnd => (q_end q, s, vzero)
+  | ADs => let '(q', d) := q_ds q in (q', s, d)
+  | ASetT T => (q_set_T q T, s, vzero)
+  end.
 
 (* ---------------- AltQueueArc / DecayArcAlt ---------------- *)
 Record altarc := mkAlt {
